@@ -24,7 +24,7 @@ CLAIMED = {
  'C15': dict(ref='4 (C15)', text='Proof for k = 3 injections (and k = 0): injection timestamps strictly ordered before / after the state\'s own callback on the pre / post side. Bounded in k.'),
  'C16': dict(ref='4 (C16)', text='Proof: with a logger exactly one method record as the first tick of every delivery to a state that defines the callback, none without logger; states that define no / one callback and verbose logging covered by the sparse witness; one record with the right arguments per changeTo/changeWith/cancel/succeed/fail; all other proofs hold for logger NULL or not (non-interference).'),
  'C17': dict(ref='4 (C17)', text='Bounded proof (capacity <= 4 quick / 5 thorough): CoreT constructed over arbitrary memory has every field determined; copy constructors of CoreT / R_ / RV_ equal the source field by field (state objects included).'),
- 'C18': dict(ref='4 (C18)', text='Proof of memory/arithmetic safety obligations of every unit of C01..C20 (about 500 units, both configurations); alignment from the real compilers\' layout (known finding F5); allocation freedom as a static fact.'),
+ 'C18': dict(ref='4 (C18)', text='Proof of memory/arithmetic safety obligations of every unit of C01..C20 (686 units over all witnessed builds); alignment from the real compilers\' layout (known finding F5); allocation freedom as a static fact.'),
  'C20': dict(ref='4 (C20)', text='Proof, for every capacity 1..255 (symbolic) and every index/bit (ghost index): per-operation postconditions of BitArrayT / StaticArrayT / DynamicArrayT against the set / array model, frames, padding invariant; loops closed by loop contracts.'),
 }
 NA = {
